@@ -427,3 +427,35 @@ def design_only(ctx, name, over, cov, timeout=900):
     cov["states"] += st["distinct"]
     cov["transitions"] += st["generated"]
     return st
+
+WALORDER_CFG = """CONSTANTS
+  Pages = {1, 2}
+  MaxLsn = %d
+  MaxCrash = 1
+INIT MCInit
+NEXT MCNext
+INVARIANTS WriteAhead HeaderCovers NoOrphanStamp
+PROPERTIES LogMonotoneOutsideCrash
+CHECK_DEADLOCK FALSE
+"""
+
+
+def walorder_design(ctx, cov, live=False):
+    """The write-ordering discipline itself (WalOrder.tla), checked by TLC on a bounded instance: every interleaving of
+    statements, flushes, failing page writes, a crash and the recovery implies write-ahead logging and a header that covers
+    the file; in the thorough tier also its progress (WalOrderLive: every dirty page is eventually written, every flush
+    ends). The order traces of the real runs are then validated against the same module (random_runs)."""
+    max_lsn = 2 if ctx.quick() else 3
+    r = vlib.run_tlc(ctx, "WalOrderMC", "WalOrderMC.cfg", cfg_text=WALORDER_CFG % max_lsn, timeout=(300 if ctx.quick() else 1500), tag="design")
+    vlib.tlc_must_ok(ctx, r, "WalOrderMC")
+    d = dict(module="WalOrderMC", constants=dict(Pages="{1, 2}", MaxLsn=max_lsn, MaxCrash=1), distinct=r.distinct, generated=r.generated, depth=r.depth,
+             invariants=["WriteAhead", "HeaderCovers", "NoOrphanStamp"], properties=["LogMonotoneOutsideCrash"])
+    cov.setdefault("design_models", []).append(d)
+    cov["states"] = cov.get("states", 0) + (r.distinct or 0)
+    cov["transitions"] = cov.get("transitions", 0) + (r.generated or 0)
+    if live:
+        r = vlib.run_tlc(ctx, "WalOrderLive", "WalOrderLive.cfg", workers=8, timeout=1500, tag="live")
+        vlib.tlc_must_ok(ctx, r, "WalOrderLive")
+        cov["design_models"].append(dict(module="WalOrderLive", constants=dict(Pages="{1, 2}", MaxLsn=2, MaxCrash=0), distinct=r.distinct, generated=r.generated,
+                                         fairness="SF ExclusiveLock, SF WritePage per dirty page, WF header / unlock / statement steps",
+                                         properties=["DirtyEventuallyWritten", "FlushEnds"]))
